@@ -49,10 +49,10 @@ Definition deficient_el2 : list string := Eval vm_compute in deficient Elastic p
 Definition deficient_elD : list string := Eval vm_compute in deficient Elastic patchesD.
 Definition deficient_th2 : list string := Eval vm_compute in deficient Thermal patches2.
 Definition deficient_thD : list string := Eval vm_compute in deficient Thermal patchesD.
-Lemma deficient_el2_eq : deficient Elastic patches2 = deficient_el2. Proof. vm_compute. reflexivity. Qed.
-Lemma deficient_elD_eq : deficient Elastic patchesD = deficient_elD. Proof. vm_compute. reflexivity. Qed.
-Lemma deficient_th2_eq : deficient Thermal patches2 = deficient_th2. Proof. vm_compute. reflexivity. Qed.
-Lemma deficient_thD_eq : deficient Thermal patchesD = deficient_thD. Proof. vm_compute. reflexivity. Qed.
+Lemma deficient_el2_eq : deficient Elastic patches2 = deficient_el2. Proof. vm_cast_no_check (eq_refl deficient_el2). Qed.
+Lemma deficient_elD_eq : deficient Elastic patchesD = deficient_elD. Proof. vm_cast_no_check (eq_refl deficient_elD). Qed.
+Lemma deficient_th2_eq : deficient Thermal patches2 = deficient_th2. Proof. vm_cast_no_check (eq_refl deficient_th2). Qed.
+Lemma deficient_thD_eq : deficient Thermal patchesD = deficient_thD. Proof. vm_cast_no_check (eq_refl deficient_thD). Qed.
 
 Definition spec_ok (k : kind) (l : list (string * patch)) (e : elem) : Prop :=
   exists r pa rk, lookup (ename e) "rigi" = Some r /\ find_patch l (ename e) = Some pa /\
@@ -115,7 +115,7 @@ Definition single_thermal := Eval vm_compute in map (single_row Thermal) all_ele
 Theorem C02_single_element_ranks :
   map (single_row Elastic) (filter (applicable Elastic) all_elems) = single_elastic /\
   map (single_row Thermal) all_elems = single_thermal.
-Proof. split; vm_compute; reflexivity. Qed.
+Proof. split; [vm_cast_no_check (eq_refl single_elastic) | vm_cast_no_check (eq_refl single_thermal)]. Qed.
 
 (* ---------- consistent mass: weights > 0 and N-samples of full column rank ---------- *)
 Definition mass_ok (e : elem) : bool :=
@@ -125,7 +125,7 @@ Definition mass_ok (e : elem) : bool :=
   | None => false end.
 Definition deficient_mass_def : list string := map ename (filter (fun e => negb (mass_ok e)) all_elems).
 Definition deficient_mass : list string := Eval vm_compute in deficient_mass_def.
-Lemma deficient_mass_eq : deficient_mass_def = deficient_mass. Proof. vm_compute. reflexivity. Qed.
+Lemma deficient_mass_eq : deficient_mass_def = deficient_mass. Proof. vm_cast_no_check (eq_refl deficient_mass). Qed.
 Definition mass_row (e : elem) :=
   match lookup (ename e) "mass" with
   | Some r => (ename e, rnpg r, weights_pos r, nsample_rank e r, enPe e)
